@@ -5,6 +5,10 @@ what they protect, D3 the cap is tested before anything of product size is mater
 D4 error classes.  Round 4: the configuration parser and the run-space dataclasses agree on what a missing key means
 (C08-D1-declared-defaults, an interface rule over every function that builds the dataclasses), and source content
 reaches a word-accepting converter (float, ...) only behind a test on its spelling (C08-D1-source-cells).
+Defect 4eea17b: every failure of reading a source file (I/O and decoding class) is carried through the handlers and
+call sites of the call graph of expand_run_space and must leave it as the configuration error named by the `except`
+clauses around the CLI's expand_run_space call (C08-D4-read-errors-converted, sibling of the parser-error conversion
+in C08-D4-error-classes; re-applied by C17).
 
 Everything is decided on the *normal form* of the three anchored functions (private helpers inlined,
 module constants substituted, if/else merged, accumulate loops turned into comprehensions, pure
@@ -18,6 +22,7 @@ the guaranteeing edge.
 from __future__ import annotations
 
 import ast
+import copy
 from typing import Callable, Dict, FrozenSet, Iterator, List, Optional, Sequence, Set, Tuple
 
 from ..cfg import CFG, edges_guaranteeing, reaching_defs
@@ -25,6 +30,7 @@ from ..engine import (
     AnalysisError,
     FuncNode,
     Repo,
+    _attach_parents,
     ancestors,
     assigned_value,
     call_attr,
@@ -33,6 +39,7 @@ from ..engine import (
     dotted_name,
     kwarg,
     norm,
+    parent,
     stmt_of,
     terminates_in_raise,
     walk_no_nested,
@@ -78,6 +85,11 @@ def call_arg(c: ast.Call, idx: int, name: Optional[str]) -> Optional[ast.AST]:
     """Argument of *c* given positionally at *idx* or by keyword *name*."""
     if len(c.args) > idx and not any(isinstance(a, ast.Starred) for a in c.args[: idx + 1]):
         return c.args[idx]
+    if name and kwarg(c, name) is None:
+        # f(**{"name": value, ..}): keywords handed over as a mapping display
+        hits = [v for kw in c.keywords if kw.arg is None and isinstance(kw.value, ast.Dict) for k, v in zip(kw.value.keys, kw.value.values) if isinstance(k, ast.Constant) and k.value == name]
+        if len(hits) == 1:
+            return hits[0]
     return kwarg(c, name) if name else None
 
 
@@ -154,6 +166,157 @@ def count_cmp(e: ast.AST) -> Optional[Tuple[ast.AST, str]]:
     }
     kind = table.get((op, n))
     return (l.args[0], kind) if kind else None
+
+
+def _container_kind(e: ast.AST) -> Optional[str]:
+    """'dict' / 'set' / 'list' / 'tuple' when the expression visibly builds a container of that type."""
+    if isinstance(e, (ast.Dict, ast.DictComp)):
+        return "dict"
+    if isinstance(e, (ast.Set, ast.SetComp)):
+        return "set"
+    if isinstance(e, (ast.List, ast.ListComp)):
+        return "list"
+    if isinstance(e, ast.Tuple):
+        return "tuple"
+    if isinstance(e, ast.Call) and isinstance(e.func, ast.Name):
+        return {"dict": "dict", "set": "set", "frozenset": "set", "list": "list", "sorted": "list", "tuple": "tuple"}.get(e.func.id)
+    if isinstance(e, ast.Call) and isinstance(e.func, ast.Attribute) and e.func.attr in ("intersection", "difference", "symmetric_difference"):
+        return "set"
+    if isinstance(e, ast.Call) and isinstance(e.func, ast.Attribute) and e.func.attr == "union":
+        return _container_kind(e.func.value)
+    if isinstance(e, ast.BinOp) and isinstance(e.op, (ast.BitAnd, ast.BitOr, ast.Sub)):
+        l, r = _container_kind(e.left), _container_kind(e.right)
+        return l if l == r or r is None else (r if l is None else None)
+    return None
+
+
+def emptiness_test(e: ast.AST, flow: Optional["Flow"] = None, at: Optional[ast.AST] = None) -> Optional[Tuple[ast.AST, bool]]:
+    """(X, empty?) when the truth of *e* tells that the collection X is empty (True) / not empty (False):
+    `len(X) == 0`, `len(X) > 0`, ... (count_cmp), bare `len(X)` / `bool(X)`, and `X == {}` / `X != []` provided the
+    empty display has the type X is visibly built with and none of its definitions visibly builds another type
+    (`a_set == {}` is never true).  A bare name is left to the
+    caller (it knows what the name has to stand for)."""
+    cc = count_cmp(e)
+    if cc and cc[1] in ("some", "none"):
+        return cc[0], cc[1] == "none"
+    if isinstance(e, ast.Call) and isinstance(e.func, ast.Name) and e.func.id in ("len", "bool") and len(e.args) == 1 and not e.keywords:
+        return e.args[0], False
+    if isinstance(e, ast.Compare) and len(e.ops) == 1 and isinstance(e.ops[0], (ast.Eq, ast.NotEq)):
+        l, r = e.left, e.comparators[0]
+        if is_empty_container(l) and not is_empty_container(r):
+            l, r = r, l
+        if is_empty_container(r) and not is_empty_container(l) and flow is not None:
+            want = _container_kind(r)
+            kinds = {_container_kind(v) for v, _s in flow.values(l, at if at is not None else stmt_of(e))}
+            if want is not None and want in kinds and kinds <= {want, None}:  # some definitions may be opaque (a call result)
+                return l, isinstance(e.ops[0], ast.Eq)
+    return None
+
+
+def keyed_stores(root: ast.AST) -> Iterator[Tuple[ast.stmt, str, ast.AST]]:
+    """(statement, mapping local, key expression) for every statement under *root* that files one value under one key
+    of a mapping held in a local, however the store is spelled: `M[k] = v`, `M.update({k: v})`, `M.__setitem__(k, v)`,
+    `M.setdefault(k, v)`, `M |= {k: v}`, `M = {**M, k: v}`, `M = M | {k: v}`."""
+    def display_keys(d: ast.AST) -> Optional[List[ast.AST]]:
+        return list(d.keys) if isinstance(d, ast.Dict) and d.keys and all(k is not None for k in d.keys) else None
+
+    for n in ast.walk(root):
+        if isinstance(n, ast.Assign) and len(n.targets) == 1:
+            t = n.targets[0]
+            if isinstance(t, ast.Subscript) and isinstance(t.value, ast.Name):
+                yield n, t.value.id, t.slice
+            elif isinstance(t, ast.Name) and isinstance(n.value, ast.Dict) and n.value.keys and n.value.keys[0] is None and isinstance(n.value.values[0], ast.Name) and n.value.values[0].id == t.id and all(k is not None for k in n.value.keys[1:]):
+                for k in n.value.keys[1:]:
+                    yield n, t.id, k
+            elif isinstance(t, ast.Name) and isinstance(n.value, ast.BinOp) and isinstance(n.value.op, ast.BitOr) and isinstance(n.value.left, ast.Name) and n.value.left.id == t.id:
+                for k in display_keys(n.value.right) or []:
+                    yield n, t.id, k
+        elif isinstance(n, ast.AugAssign) and isinstance(n.op, ast.BitOr) and isinstance(n.target, ast.Name):
+            for k in display_keys(n.value) or []:
+                yield n, n.target.id, k
+        elif isinstance(n, ast.Expr) and isinstance(n.value, ast.Call) and isinstance(n.value.func, ast.Attribute) and isinstance(n.value.func.value, ast.Name) and not n.value.keywords:
+            c = n.value
+            if c.func.attr == "update" and len(c.args) == 1:
+                for k in display_keys(c.args[0]) or []:
+                    yield n, c.func.value.id, k
+            elif c.func.attr in ("__setitem__", "setdefault") and len(c.args) == 2:
+                yield n, c.func.value.id, c.args[0]
+
+
+def mutated_in(root: ast.AST, name: str) -> bool:
+    """The container held in the local *name* is changed in place somewhere under *root*."""
+    for n in ast.walk(root):
+        if isinstance(n, ast.Call) and isinstance(n.func, ast.Attribute) and isinstance(n.func.value, ast.Name) and n.func.value.id == name and n.func.attr in ("update", "setdefault", "pop", "popitem", "clear", "__setitem__", "__delitem__", "add", "append", "extend", "insert", "discard", "remove", "sort", "reverse"):
+            return True
+        if isinstance(n, ast.Subscript) and isinstance(n.ctx, (ast.Store, ast.Del)) and isinstance(n.value, ast.Name) and n.value.id == name:
+            return True
+        if isinstance(n, ast.AugAssign) and isinstance(n.target, ast.Name) and n.target.id == name:
+            return True
+    return False
+
+
+def _single_store(st: ast.stmt) -> Optional[Tuple[str, ast.AST, ast.AST]]:
+    """(mapping local, key, value) when the statement files exactly one value under one key of a mapping local."""
+    def one(d: ast.AST) -> Optional[Tuple[ast.AST, ast.AST]]:
+        return (d.keys[0], d.values[0]) if isinstance(d, ast.Dict) and len(d.keys) == 1 and d.keys[0] is not None else None
+
+    if isinstance(st, ast.Assign) and len(st.targets) == 1 and isinstance(st.targets[0], ast.Subscript) and isinstance(st.targets[0].value, ast.Name):
+        return st.targets[0].value.id, st.targets[0].slice, st.value
+    if isinstance(st, ast.AugAssign) and isinstance(st.op, ast.BitOr) and isinstance(st.target, ast.Name) and one(st.value):
+        return (st.target.id,) + one(st.value)
+    if isinstance(st, ast.Expr) and isinstance(st.value, ast.Call) and isinstance(st.value.func, ast.Attribute) and isinstance(st.value.func.value, ast.Name) and not st.value.keywords:
+        c = st.value
+        if c.func.attr == "update" and len(c.args) == 1 and one(c.args[0]):
+            return (c.func.value.id,) + one(c.args[0])
+        if c.func.attr == "__setitem__" and len(c.args) == 2:
+            return c.func.value.id, c.args[0], c.args[1]
+    return None
+
+
+def canon_dicts(fn: ast.AST) -> ast.AST:
+    """Own copy of a normal form in which a mapping built from (key, value) pairs has one spelling, the dict
+    comprehension: `dict((k, v) for ..)` / `dict([(k, v) for ..])`, and `m = {}` followed by a loop whose whole body
+    files one pair (`m[k] = v`, `m.update({k: v})`, `m |= {k: v}`, `m.__setitem__(k, v)`).  Same keys, values, order."""
+    par = parent(fn)
+    new = copy.deepcopy(fn, {id(par): par} if par is not None else {})
+
+    class T(ast.NodeTransformer):
+        def visit_Call(self, c: ast.Call) -> ast.AST:
+            self.generic_visit(c)
+            if isinstance(c.func, ast.Name) and c.func.id == "dict" and len(c.args) == 1 and not c.keywords and isinstance(c.args[0], (ast.GeneratorExp, ast.ListComp)):
+                elt = c.args[0].elt
+                if isinstance(elt, ast.Tuple) and len(elt.elts) == 2 and not any(isinstance(x, ast.Starred) for x in elt.elts):
+                    return ast.copy_location(ast.DictComp(key=elt.elts[0], value=elt.elts[1], generators=c.args[0].generators), c)
+            return c
+
+        def generic_visit(self, node: ast.AST) -> ast.AST:
+            super().generic_visit(node)
+            for field in ("body", "orelse", "finalbody"):
+                body = getattr(node, field, None)
+                if not isinstance(body, list) or not all(isinstance(x, ast.stmt) for x in body):
+                    continue
+                i = 0
+                while i + 1 < len(body):
+                    a, lp = body[i], body[i + 1]
+                    tgt = a.targets[0] if isinstance(a, ast.Assign) and len(a.targets) == 1 else a.target if isinstance(a, ast.AnnAssign) else None
+                    val = getattr(a, "value", None)
+                    if isinstance(tgt, ast.Name) and val is not None and is_empty_container(val) and _container_kind(val) == "dict" and isinstance(lp, ast.For) and not lp.orelse and len(lp.body) == 1:
+                        st = _single_store(lp.body[0])
+                        if st is not None and st[0] == tgt.id and tgt.id not in (names_in(st[1]) | names_in(st[2]) | names_in(lp.iter) | names_in(lp.target)):
+                            a.value = ast.copy_location(ast.DictComp(key=st[1], value=st[2], generators=[ast.comprehension(target=lp.target, iter=lp.iter, ifs=[], is_async=0)]), lp)
+                            for x in ast.walk(a.value.generators[0].target):
+                                if isinstance(x, ast.Name):
+                                    x.ctx = ast.Store()
+                            del body[i + 1]
+                            continue
+                    i += 1
+            return node
+
+    new = T().visit(new)
+    ast.fix_missing_locations(new)
+    _attach_parents(new)
+    new._parent = par  # type: ignore[attr-defined]
+    return new
 
 
 class Flow:
@@ -352,6 +515,18 @@ def _source_columns(repo: Repo, R: Report) -> None:
                 if k is not None:
                     sites.append((node, k, val, [], mapping))
 
+    def grown_by(value: ast.AST, mapping: str, key: ast.AST) -> ast.AST:
+        """`M[k] = M.get(k, []) + cells` / `M[k] = M[k] + cells` stores the column it already had, grown by *cells*:
+        the cells filed by the statement are the right operand (as with `M[k] += cells`)."""
+        if isinstance(value, ast.BinOp) and isinstance(value.op, ast.Add):
+            had = value.left
+            same = isinstance(had, ast.Subscript) and isinstance(had.value, ast.Name) and had.value.id == mapping and _u(had.slice) == _u(key)
+            if isinstance(had, ast.Call) and isinstance(had.func, ast.Attribute) and had.func.attr in ("get", "setdefault") and isinstance(had.func.value, ast.Name) and had.func.value.id == mapping and len(had.args) == 2 and not had.keywords:
+                same = _u(had.args[0]) == _u(key) and is_empty_container(had.args[1])
+            if same:
+                return value.right
+        return value
+
     for r in walk_no_nested(lsf):
         if isinstance(r, ast.Return) and r.value is not None:
             v = strip_keyset(r.value)
@@ -365,9 +540,12 @@ def _source_columns(repo: Repo, R: Report) -> None:
                 if isinstance(t, ast.Name) and t.id in cols:
                     display_sites(n, n.value, t.id)
                 elif isinstance(t, ast.Subscript) and isinstance(t.value, ast.Name) and t.value.id in cols:
-                    sites.append((n, t.slice, n.value, [], t.value.id))
+                    sites.append((n, t.slice, grown_by(n.value, t.value.id, t.slice), [], t.value.id))
         elif isinstance(n, ast.AugAssign) and isinstance(n.op, ast.Add) and isinstance(n.target, ast.Subscript) and isinstance(n.target.value, ast.Name) and n.target.value.id in cols:
             sites.append((n, n.target.slice, n.value, [], n.target.value.id))
+        elif isinstance(n, (ast.Expr, ast.AugAssign)) and _single_store(n) is not None and _single_store(n)[0] in cols:
+            m_, k_, v_ = _single_store(n)  # columns.update({k: cells}) / columns |= {k: cells} / columns.__setitem__(k, cells)
+            sites.append((n, k_, grown_by(v_, m_, k_), [], m_))
         elif isinstance(n, ast.Call) and isinstance(n.func, ast.Attribute) and n.func.attr in ("append", "extend") and len(n.args) == 1:
             holder = n.func.value
             if isinstance(holder, ast.Subscript) and isinstance(holder.value, ast.Name) and holder.value.id in cols:
@@ -1031,12 +1209,766 @@ def _converters_in(R: Report, r_cell, rel: str, fn: ast.AST, done: Set[Tuple]) -
         R.check(guarded, r_cell, rel, fn.name, label, f"file content reaches `{shown}()` without a test on its spelling ({accepts}): cells that are words or identifiers (bound = inf|sup, fill = nan|zero, batch = 1e3) are loaded as inf / nan / 1000.0 instead of the text written in the file, so the runs carry values that were not declared (nan also makes identical runs compare unequal) and csv disagrees with the same data in json / yaml", getattr(c, "lineno", fn.lineno), path or None)
 
 
+# ---------------------------------------------------------------------------------------------
+# D4: a source file that cannot be read ends in the configuration error the CLI gate maps
+# ---------------------------------------------------------------------------------------------
+# Defect 4eea17b: `_load_source_file` opened / decoded the file outside any converting `try`, so a source that is a
+# directory, unreadable or not UTF-8 left `expand_run_space` as OSError / UnicodeDecodeError; `cli._run` maps only the
+# classes named in the `except` clauses around its `expand_run_space(...)` call to the configuration-error exit, and
+# `semantiva run` ended in a traceback (exit 1).  The rule is an abstract exception propagation over the call graph of
+# `expand_run_space`: for every operation that reads a file and for both failure classes (I/O: OSError; decoding:
+# UnicodeDecodeError) the exception is carried outwards through the enclosing `try` statements (handlers matched in
+# order by class, a handler's `raise` continues with the raised class), through every call site, up to the gate in the
+# CLI.  It must arrive as a class the gate maps; a handler that ends without raising loses the source silently.
+CLI = "semantiva/cli/__init__.py"
+_BUILTIN_EXC = {n: o for n, o in vars(__import__("builtins")).items() if isinstance(o, type) and issubclass(o, BaseException)}
+_EXTERNAL_BASE = {
+    "json.JSONDecodeError": "ValueError", "json.decoder.JSONDecodeError": "ValueError", "yaml.YAMLError": "Exception",
+    "yaml.error.YAMLError": "Exception", "yaml.error.MarkedYAMLError": "Exception", "yaml.scanner.ScannerError": "Exception",
+    "yaml.parser.ParserError": "Exception", "csv.Error": "Exception",
+}
+_OPEN_MODULES = {"io", "codecs", "gzip", "bz2", "lzma", "tokenize", "builtins"}
+_LAZY_CALLS = {"csv.reader", "csv.DictReader", "reader", "DictReader", "map", "filter", "zip", "enumerate", "iter", "reversed", "yaml.safe_load_all", "yaml.load_all", "io.TextIOWrapper", "TextIOWrapper", "io.BufferedReader"}
+_EAGER_CALLS = {"json.load", "yaml.safe_load", "yaml.load", "list", "tuple", "sorted", "set", "frozenset", "dict", "next", "sum", "min", "max", "any", "all", "len", "str", "bytes", "print", "isinstance"}
+_STORING_ATTRS = {"append", "extend", "add", "insert", "setdefault", "update", "put", "appendleft", "push"}
+_TRANSPARENT_DECORATORS = {"staticmethod", "classmethod", "functools.lru_cache", "lru_cache", "functools.cache", "cache", "functools.wraps", "wraps", "typing.no_type_check", "no_type_check"}
+IO_FAIL, DECODE_FAIL = "OSError", "UnicodeDecodeError"
+_FAIL_TEXT = {IO_FAIL: "cannot be opened / read (a directory, no permission, I/O error)", DECODE_FAIL: "is not valid in the declared encoding"}
+
+
+class _Exc:
+    """An exception class as far as `except` matching needs it: its identity and the identities of its ancestors."""
+
+    __slots__ = ("key", "supers", "label")
+
+    def __init__(self, key: str, supers: Set[str], label: str) -> None:
+        self.key, self.supers, self.label = key, frozenset(supers | {key}), label
+
+    @staticmethod
+    def builtin(name: str) -> "_Exc":
+        o = _BUILTIN_EXC[name]
+        return _Exc(o.__name__, {c.__name__ for c in o.__mro__ if c is not object}, o.__name__)
+
+
+def _walk_fn(root: ast.AST) -> Iterator[ast.AST]:
+    """Nodes of a function body, lambdas and comprehensions included, nested defs / classes not."""
+    todo = list(ast.iter_child_nodes(root))
+    while todo:
+        n = todo.pop()
+        if isinstance(n, FuncNode + (ast.ClassDef,)):
+            continue
+        yield n
+        todo.extend(ast.iter_child_nodes(n))
+
+
+def _bind_args(call: ast.Call, fn: ast.AST) -> Dict[str, ast.AST]:
+    """Argument expression per parameter name of *fn* for *call* (positional and keyword; `self`/`cls` skipped)."""
+    a = fn.args  # type: ignore[attr-defined]
+    pos = [x.arg for x in a.posonlyargs + a.args]
+    if pos and pos[0] in ("self", "cls") and (isinstance(call.func, ast.Attribute) or fn.name == "__init__"):  # type: ignore[attr-defined]
+        pos = pos[1:]
+    out: Dict[str, ast.AST] = {}
+    for i, e in enumerate(call.args):
+        if isinstance(e, ast.Starred):
+            break
+        if i < len(pos):
+            out[pos[i]] = e
+    for kw in call.keywords:
+        if kw.arg is not None:
+            out[kw.arg] = kw.value
+    return out
+
+
+class _Handle:
+    """What is known about a name that stands for an open file or something that reads one lazily."""
+
+    __slots__ = ("text", "origins")
+
+    def __init__(self, text: bool, origins: Set[int]) -> None:
+        self.text, self.origins = text, set(origins)
+
+    def merged(self, other: Optional["_Handle"]) -> "_Handle":
+        return self if other is None else _Handle(self.text or other.text, self.origins | other.origins)
+
+    def same(self, other: Optional["_Handle"]) -> bool:
+        return other is not None and self.text == other.text and self.origins == other.origins
+
+
+class _Site:
+    __slots__ = ("mod", "fn", "node", "classes", "origins", "kind", "path")
+
+    def __init__(self, mod, fn, node, classes, origins, kind, path=None) -> None:
+        self.mod, self.fn, self.node, self.classes, self.origins, self.kind, self.path = mod, fn, node, tuple(classes), set(origins), kind, path
+
+
+class _ReadErrors:
+    def __init__(self, repo: Repo, library_view: bool = True) -> None:
+        self.repo = repo
+        self.library_view = library_view
+        self.root_mod = repo.module(RS)
+        self.root = repo.func(RS, ERS)
+        closure = repo.call_graph_closure([(self.root_mod, self.root)])
+        self.funcs: Dict[int, Tuple[object, ast.AST]] = {fid: (m, n) for fid, (m, n, _p) in closure.items()}
+        self.callers: Dict[int, List[Tuple[object, ast.AST, ast.Call]]] = {}
+        self.targets: Dict[int, List[Tuple[object, ast.AST]]] = {}
+        for m, f in self.funcs.values():
+            for c in [n for n in _walk_fn(f) if isinstance(n, ast.Call)]:
+                tg = [(tm, tn) for tm, tn in repo.resolve_call(m, c) if id(tn) in self.funcs]
+                if tg:
+                    self.targets[id(c)] = tg
+                for _tm, tn in tg:
+                    self.callers.setdefault(id(tn), []).append((m, f, c))
+        self.env: Dict[int, Dict[str, _Handle]] = {fid: {} for fid in self.funcs}
+        self.returns: Dict[int, _Handle] = {}
+        self.sites: List[_Site] = []
+        self._memo: Dict[Tuple[int, str], List[Tuple[str, _Exc, str, int]]] = {}
+        self._busy: Set[Tuple[int, str]] = set()
+        self._cfgs: Dict[int, CFG] = {}
+        self._gate()
+        self._handles()
+        self._find_sites()
+
+    # ---- exception classes ------------------------------------------------------------------
+    def exc_of(self, mod, expr: ast.AST, ctx: ast.AST) -> Optional[_Exc]:
+        r = self.repo.resolve_name(mod, expr, ctx) if isinstance(expr, (ast.Name, ast.Attribute)) else None
+        if r is not None and isinstance(r[1], ast.ClassDef):
+            cm, cls = r
+            from ..engine import qualname_of
+
+            supers: Set[str] = set()
+            for m2, c2 in self.repo.mro(cm, cls):
+                supers.add(f"{m2.rel}:{qualname_of(c2)}")
+                for b in c2.bases:
+                    if self.repo.resolve_name(m2, b, c2) is None:
+                        bn = _last(dotted_name(b))
+                        if bn in _BUILTIN_EXC:
+                            supers |= _Exc.builtin(bn).supers
+            return _Exc(f"{cm.rel}:{qualname_of(cls)}", supers, cls.name)
+        d = dotted_name(expr)
+        if d is None:
+            return None
+        head, _, rest = d.partition(".")
+        target = mod.imports.get(head)
+        if target is not None:
+            full = f"{target}.{rest}" if rest else target
+            if full.startswith("builtins.") and full[9:] in _BUILTIN_EXC:
+                return _Exc.builtin(full[9:])
+            base = _EXTERNAL_BASE.get(full, "Exception")
+            return _Exc(full, set(_Exc.builtin(base).supers), full)
+        if not rest and head in _BUILTIN_EXC and head not in mod.defs:
+            return _Exc.builtin(head)
+        return None
+
+    def handler_types(self, mod, fn: ast.AST, t: Optional[ast.AST], depth: int = 0) -> List[_Exc]:
+        if t is None:
+            return [_Exc.builtin("BaseException")]
+        if isinstance(t, ast.Tuple):
+            return [x for e in t.elts for x in self.handler_types(mod, fn, e, depth)]
+        e = self.exc_of(mod, t, fn)
+        if e is not None:
+            return [e]
+        if isinstance(t, ast.Name) and depth < 3:
+            vals = assigned_value(fn, t.id) or [st.value for st in mod.tree.body if isinstance(st, ast.Assign) and any(isinstance(x, ast.Name) and x.id == t.id for x in st.targets)]
+            if len(vals) == 1:
+                return self.handler_types(mod, fn, vals[0], depth + 1)
+        raise AnalysisError(f"{getattr(fn, 'name', '?')}: the exception class of `except {_u(t)}` was not recognised (line {getattr(t, 'lineno', 0)})")
+
+    # ---- the gate in the CLI ----------------------------------------------------------------
+    def _gate(self) -> None:
+        """Classes the CLI maps to an exit code around its call of expand_run_space (by role: the `except` clauses
+        of the `try` statements whose body holds a call that resolves to expand_run_space, in the function holding
+        the call or around its call sites), and the class that reports the cap (raised with the configured maximum)."""
+        repo = self.repo
+        cli = repo.module(CLI)
+        self.gate: List[_Exc] = []
+        self.gate_names: List[str] = []
+        cli_funcs = [n for q, n in cli.defs.items() if isinstance(n, FuncNode)]
+
+        def collect(node: ast.AST, fn: ast.AST, depth: int) -> None:
+            child = node
+            for a in ancestors(node):
+                if a is fn:
+                    break
+                if isinstance(a, ast.Try) and any(child is st for st in a.body):
+                    for h in a.handlers:
+                        rets = [x for st in h.body for x in walk_no_nested(st) if isinstance(x, ast.Return)]
+                        exits = [x for st in h.body for x in walk_no_nested(st) if isinstance(x, ast.Call) and call_name(x) in ("sys.exit", "exit", "SystemExit")]
+                        ok_rets = [x for x in rets if x.value is not None and not (isinstance(x.value, ast.Constant) and x.value.value in (0, None)) and dotted_name(x.value) != "EXIT_SUCCESS"]
+                        if (rets and len(ok_rets) == len(rets)) or exits:
+                            for e in self.handler_types(cli, fn, h.type):
+                                self.gate.append(e)
+                                self.gate_names.append(e.label)
+                child = a
+            if depth < 3:
+                for f2 in cli_funcs:
+                    for c in calls_in(f2):
+                        if any(tn is fn for _tm, tn in repo.resolve_call(cli, c)):
+                            collect(c, f2, depth + 1)
+
+        found = False
+        for f in cli_funcs:
+            for c in calls_in(f):
+                if any(tn is self.root for _tm, tn in repo.resolve_call(cli, c)):
+                    found = True
+                    collect(c, f, 0)
+        if not found:
+            raise AnalysisError("cli: no call of expand_run_space found (the gate whose except clauses name the configuration error)")
+        # the cap class by role: raised with the configured maximum
+        self.cap_keys: Set[str] = set()
+        for m, f in self.funcs.values():
+            for n in _walk_fn(f):
+                if isinstance(n, ast.Raise) and isinstance(n.exc, ast.Call) and any(isinstance(x, ast.Attribute) and x.attr == "max_runs" for x in ast.walk(n.exc)):
+                    e = self.exc_of(m, n.exc.func, f)
+                    if e is not None:
+                        self.cap_keys.add(e.key)
+
+    def mapped(self, e: _Exc) -> bool:
+        """The gate maps *e* to its exit code.  In the library view (C08: what expand_run_space may raise) only the
+        classes of the package that the gate names count - a catch-all in the CLI does not make OSError a documented
+        error of the expansion; in the CLI view (C17) every class the gate catches counts."""
+        gate = [g for g in self.gate if ":" in g.key] if self.library_view else self.gate
+        return e.key not in self.cap_keys and any(g.key in e.supers for g in gate)
+
+    # ---- handles ------------------------------------------------------------------------------
+    def open_call(self, c: ast.AST) -> Optional[Tuple[Optional[ast.AST], bool]]:
+        """(path expression, text mode?) when *c* opens a file."""
+        if not (isinstance(c, ast.Call) and call_attr(c) == "open"):
+            return None
+        d = call_name(c) or ""
+        if isinstance(c.func, ast.Name) or d.split(".")[0] in _OPEN_MODULES:
+            path = c.args[0] if c.args else kwarg(c, "file")
+            mode = c.args[1] if len(c.args) > 1 else kwarg(c, "mode")
+        else:
+            path = c.func.value  # type: ignore[union-attr]
+            mode = c.args[0] if c.args else kwarg(c, "mode")
+        binary = isinstance(mode, ast.Constant) and isinstance(mode.value, str) and "b" in mode.value
+        return path, not binary
+
+    def is_generator(self, fn: ast.AST) -> bool:
+        return any(isinstance(n, (ast.Yield, ast.YieldFrom)) for n in _walk_fn(fn) if not isinstance(n, ast.Lambda))
+
+    def producer(self, mod, fn: ast.AST, e: Optional[ast.AST]) -> Optional[_Handle]:
+        """The file(s) *e* stands for when it is an open file or reads one lazily."""
+        env = self.env[id(fn)]
+        if e is None:
+            return None
+        if isinstance(e, ast.Name):
+            return env.get(e.id)
+        if isinstance(e, ast.NamedExpr):
+            return self.producer(mod, fn, e.value)
+        if isinstance(e, ast.IfExp):
+            a, b = self.producer(mod, fn, e.body), self.producer(mod, fn, e.orelse)
+            return a.merged(b) if a is not None else b
+        if isinstance(e, ast.GeneratorExp):
+            out = None
+            for gen in e.generators:
+                p = self.producer(mod, fn, gen.iter)
+                if p is not None:
+                    out = p.merged(out)
+            return out
+        if isinstance(e, ast.Call):
+            oc = self.open_call(e)
+            if oc is not None:
+                return _Handle(oc[1], {id(e)})
+            if call_attr(e) == "enter_context" and e.args:
+                return self.producer(mod, fn, e.args[0])
+            tg = self.targets.get(id(e))
+            if tg:
+                out = None
+                for _tm, tn in tg:
+                    r = self.returns.get(id(tn))
+                    if r is not None:
+                        out = _Handle(r.text, {id(e)}).merged(out)
+                return out
+            d = call_name(e) or ""
+            if isinstance(e.func, ast.Attribute) and self.producer(mod, fn, e.func.value) is not None:
+                return None  # a method of the handle itself: handle.read(), reader.fieldnames ... (data)
+            if d in _EAGER_CALLS:
+                return None
+            out = None
+            for x in list(e.args) + [kw.value for kw in e.keywords]:
+                p = self.producer(mod, fn, x.value if isinstance(x, ast.Starred) else x)
+                if p is not None:
+                    out = p.merged(out)
+            return out  # a lazy wrapper (csv.reader, map, zip ...) or an unknown callable given the handle
+        return None
+
+    def _handles(self) -> None:
+        for _round in range(12):
+            changed = False
+            for fid, (m, f) in self.funcs.items():
+                env = self.env[fid]
+
+                def bind(name: str, h: Optional[_Handle]) -> None:
+                    nonlocal changed
+                    if h is None:
+                        return
+                    new = h.merged(env.get(name))
+                    if not new.same(env.get(name)):
+                        env[name] = new
+                        changed = True
+
+                for n in _walk_fn(f):
+                    if isinstance(n, ast.Assign) and len(n.targets) == 1 and isinstance(n.targets[0], ast.Name):
+                        bind(n.targets[0].id, self.producer(m, f, n.value))
+                    elif isinstance(n, ast.AnnAssign) and isinstance(n.target, ast.Name):
+                        bind(n.target.id, self.producer(m, f, n.value))
+                    elif isinstance(n, ast.NamedExpr) and isinstance(n.target, ast.Name):
+                        bind(n.target.id, self.producer(m, f, n.value))
+                    elif isinstance(n, ast.withitem) and isinstance(n.optional_vars, ast.Name):
+                        bind(n.optional_vars.id, self.producer(m, f, n.context_expr))
+                    elif isinstance(n, ast.Call) and id(n) in self.targets:
+                        for tm, tn in self.targets[id(n)]:
+                            for pname, arg in _bind_args(n, tn).items():
+                                h = self.producer(m, f, arg)
+                                if h is not None:
+                                    tenv = self.env[id(tn)]
+                                    new = h.merged(tenv.get(pname))
+                                    if not new.same(tenv.get(pname)):
+                                        tenv[pname] = new
+                                        changed = True
+                # what the function hands back
+                ret: Optional[_Handle] = None
+                if self.is_generator(f):
+                    needs = [s for s in self._local_sites(m, f)]
+                    if needs:
+                        ret = _Handle(any(DECODE_FAIL in s.classes for s in needs), {id(f)})
+                else:
+                    for n in _walk_fn(f):
+                        if isinstance(n, ast.Return):
+                            p = self.producer(m, f, n.value)
+                            if p is not None:
+                                ret = p.merged(ret)
+                if ret is not None and not ret.same(self.returns.get(fid)):
+                    self.returns[fid] = ret.merged(self.returns.get(fid))
+                    changed = True
+            if not changed:
+                return
+        raise AnalysisError("run-space source reading: the file handles did not stabilise")
+
+    # ---- sites --------------------------------------------------------------------------------
+    def _bound(self, n: ast.AST) -> bool:
+        """The value of expression *n* is given a name / handed back (its reads then happen at the uses of the name)."""
+        from ..engine import parent
+
+        p = parent(n)
+        if isinstance(p, ast.withitem) and p.context_expr is n:
+            return True
+        if isinstance(p, (ast.Assign, ast.AnnAssign, ast.NamedExpr)) and p.value is n:
+            tgts = p.targets if isinstance(p, ast.Assign) else [p.target]
+            if all(isinstance(t, ast.Name) for t in tgts):
+                return True
+            if self._is_producer(n):
+                raise AnalysisError(f"an open file is stored into `{_u(tgts[0])}` (line {getattr(n, 'lineno', 0)}): its reads cannot be followed")
+            return False
+        if isinstance(p, ast.Return):
+            return True
+        if isinstance(p, ast.Call) and call_attr(p) == "enter_context":
+            return self._bound(p)
+        return False
+
+    def _is_producer(self, n: ast.AST) -> bool:
+        from ..engine import enclosing_function
+
+        f = enclosing_function(n)
+        while f is not None and id(f) not in self.funcs:
+            f = enclosing_function(f)
+        return f is not None and self.producer(self.funcs[id(f)][0], f, n) is not None
+
+    def _local_sites(self, m, f: ast.AST) -> List[_Site]:
+        from ..engine import parent
+
+        env = self.env[id(f)]
+        out: List[_Site] = []
+        for n in _walk_fn(f):
+            if isinstance(n, ast.Call):
+                oc = self.open_call(n)
+                if oc is not None:
+                    out.append(_Site(m, f, n, [IO_FAIL], {id(n)}, "open", oc[0]))
+                    if not self._bound(n):
+                        out.append(_Site(m, f, n, [IO_FAIL] + ([DECODE_FAIL] if oc[1] else []), {id(n)}, "use"))
+                    continue
+                a = call_attr(n)
+                if a == "read_text" and isinstance(n.func, ast.Attribute):
+                    out.append(_Site(m, f, n, [IO_FAIL, DECODE_FAIL], {id(n)}, "read", n.func.value))
+                    continue
+                if a == "read_bytes" and isinstance(n.func, ast.Attribute):
+                    out.append(_Site(m, f, n, [IO_FAIL], {id(n)}, "read", n.func.value))
+                    continue
+                if id(n) in self.targets and not self._bound(n):
+                    h = self.producer(m, f, n)
+                    if h is not None:
+                        out.append(_Site(m, f, n, [IO_FAIL] + ([DECODE_FAIL] if h.text else []), h.origins, "use"))
+            elif isinstance(n, ast.Name) and isinstance(n.ctx, ast.Load) and n.id in env:
+                p = parent(n)
+                if isinstance(p, (ast.List, ast.Tuple, ast.Set, ast.Dict, ast.Starred, ast.Yield)) or (isinstance(p, ast.Call) and call_attr(p) in _STORING_ATTRS and n in p.args):
+                    raise AnalysisError(f"{getattr(f, 'name', '?')}: the open file `{n.id}` is put into a container / yielded (line {n.lineno}): its reads cannot be followed")
+                if isinstance(p, (ast.Assign, ast.AnnAssign)) and p.value is n and not all(isinstance(t, ast.Name) for t in (p.targets if isinstance(p, ast.Assign) else [p.target])):
+                    raise AnalysisError(f"{getattr(f, 'name', '?')}: the open file `{n.id}` is stored into an attribute / item (line {n.lineno}): its reads cannot be followed")
+                if isinstance(p, (ast.Assign, ast.AnnAssign, ast.NamedExpr, ast.Return)) and p.value is n:
+                    continue  # alias / handed back: nothing is read here
+                if isinstance(p, ast.withitem) and p.context_expr is n:
+                    continue
+                h = env[n.id]
+                out.append(_Site(m, f, n, [IO_FAIL] + ([DECODE_FAIL] if h.text else []), h.origins, "use"))
+        return out
+
+    def _find_sites(self) -> None:
+        for m, f in self.funcs.values():
+            self.sites.extend(self._local_sites(m, f))
+
+    # ---- propagation --------------------------------------------------------------------------
+    def _raised(self, m, f: ast.AST, r: ast.Raise, current: _Exc, handler: Optional[ast.ExceptHandler]) -> List[_Exc]:
+        if r.exc is None:
+            return [current]
+        x = r.exc
+        if isinstance(x, ast.Name) and handler is not None and handler.name == x.id:
+            return [current]
+        if isinstance(x, ast.Name):
+            vals = [v for v in assigned_value(f, x.id)]
+            out = [self._raised_value(m, f, v) for v in vals]
+            if out and all(o is not None for o in out):
+                return out  # type: ignore[return-value]
+        e = self._raised_value(m, f, x)
+        if e is None:
+            raise AnalysisError(f"{getattr(f, 'name', '?')}: the class raised by `{norm(r)[:70]}` (line {r.lineno}) was not recognised")
+        return [e]
+
+    def _raised_value(self, m, f: ast.AST, x: ast.AST) -> Optional[_Exc]:
+        if isinstance(x, ast.Call):
+            e = self.exc_of(m, x.func, f)
+            if e is not None:
+                return e
+            for tm, tn in self.repo.resolve_call(m, x):
+                vals = [v for v in (n.value for n in _walk_fn(tn) if isinstance(n, ast.Return)) if v is not None]
+                got = [self._raised_value(tm, tn, v) for v in vals]
+                if got and all(g is not None and g.key == got[0].key for g in got):  # type: ignore[union-attr]
+                    return got[0]
+            return None
+        return self.exc_of(m, x, f)
+
+    def _flow(self, m, f: ast.AST, body: Sequence[ast.stmt], current: _Exc, handler: Optional[ast.ExceptHandler], depth: int = 0) -> Tuple[bool, List[Tuple[str, object]]]:
+        """(may complete normally?, events) of a statement list; events: ('raise', (mod, fn, node, exc)) or
+        ('swallow', (node, how))."""
+        events: List[Tuple[str, object]] = []
+        for st in body:
+            falls = True
+            if isinstance(st, ast.Raise):
+                for e in self._raised(m, f, st, current, handler):
+                    events.append(("raise", (m, f, st, e)))
+                falls = False
+            elif isinstance(st, (ast.Return, ast.Continue, ast.Break)):
+                noreturn = None
+                if isinstance(st, ast.Return) and isinstance(st.value, ast.Call):
+                    noreturn = self._never_returns(m, f, st.value, current, depth)
+                if noreturn is not None:
+                    events.extend(noreturn)
+                else:
+                    events.append(("swallow", (st, {ast.Return: "returns", ast.Continue: "continues with the next item", ast.Break: "leaves the loop"}[type(st)])))
+                falls = False
+            elif isinstance(st, ast.If):
+                f1, e1 = self._flow(m, f, st.body, current, handler, depth)
+                f2, e2 = self._flow(m, f, st.orelse, current, handler, depth) if st.orelse else (True, [])
+                events += e1 + e2
+                falls = f1 or f2
+            elif isinstance(st, (ast.With, ast.AsyncWith)):
+                falls, e1 = self._flow(m, f, st.body, current, handler, depth)
+                events += e1
+            elif isinstance(st, (ast.For, ast.While, ast.AsyncFor)):
+                _f1, e1 = self._flow(m, f, st.body, current, handler, depth)
+                events += [ev for ev in e1 if not (ev[0] == "swallow" and isinstance(ev[1][0], (ast.Continue, ast.Break)))]  # type: ignore[index]
+                falls = True
+            elif isinstance(st, ast.Try):
+                f1, e1 = self._flow(m, f, st.body + st.orelse, current, handler, depth)
+                events += e1
+                falls = f1
+                for h in st.handlers:
+                    fh, eh = self._flow(m, f, h.body, current, handler, depth)
+                    events += eh
+                    falls = falls or fh
+                if st.finalbody:
+                    ff, ef = self._flow(m, f, st.finalbody, current, handler, depth)
+                    events += ef
+                    falls = falls and ff
+            elif isinstance(st, ast.Match):
+                falls = True
+                for case in st.cases:
+                    _fc, ec = self._flow(m, f, case.body, current, handler, depth)
+                    events += ec
+            elif isinstance(st, ast.Expr) and isinstance(st.value, ast.Call):
+                noreturn = self._never_returns(m, f, st.value, current, depth)
+                if noreturn is not None:
+                    events.extend(noreturn)
+                    falls = False
+                elif call_name(st.value) in ("sys.exit", "exit", "os._exit"):
+                    events.append(("swallow", (st, "ends the process")))
+                    falls = False
+            if not falls:
+                return False, events
+        return True, events
+
+    def _never_returns(self, m, f: ast.AST, c: ast.Call, current: _Exc, depth: int) -> Optional[List[Tuple[str, object]]]:
+        """Events of calling a repo function that never completes normally (a raising helper), else None."""
+        if depth > 3:
+            return None
+        tg = self.repo.resolve_call(m, c)
+        if len(tg) != 1 or not isinstance(tg[0][1], FuncNode) or tg[0][1].name == "__init__":
+            return None
+        tm, tn = tg[0]
+        falls, events = self._flow(tm, tn, tn.body, current, None, depth + 1)
+        if falls or not events or any(k != "raise" for k, _ in events):
+            return None
+        # the helper's raises surface at this call
+        return [("raise", (m, f, c, ev[3])) for _k, ev in events]  # type: ignore[index]
+
+    def _match(self, exc: _Exc, t: _Exc) -> str:
+        if t.key in exc.supers:
+            return "full"
+        if exc.key in t.supers:
+            return "part"
+        return ""
+
+    def _check_fn(self, f: ast.AST) -> None:
+        for d in getattr(f, "decorator_list", []):
+            dn = dotted_name(d.func if isinstance(d, ast.Call) else d)
+            if dn not in _TRANSPARENT_DECORATORS:
+                raise AnalysisError(f"{f.name}: reads a run-space source under the decorator `{_u(d)}`, which may handle its exceptions")  # type: ignore[attr-defined]
+        if isinstance(f, ast.AsyncFunctionDef):
+            raise AnalysisError(f"{f.name}: asynchronous source reading is not modelled")
+
+    def propagate(self, m, f: ast.AST, node: ast.AST, exc: _Exc, depth: int = 0) -> List[Tuple[str, _Exc, str, int]]:
+        """Where the exception *exc* raised at *node* of *f* ends: ('escape', class, call chain, line) at the top of
+        expand_run_space, ('swallow', class, description, line) in a handler that ends without raising."""
+        key = (id(node), exc.key)
+        if key in self._memo:
+            return self._memo[key]
+        if key in self._busy:
+            return []
+        if depth > 24:
+            raise AnalysisError(f"{getattr(f, 'name', '?')}: the call chain above a source read is deeper than this analysis follows")
+        self._busy.add(key)
+        try:
+            out = self._propagate(m, f, node, exc, depth)
+        finally:
+            self._busy.discard(key)
+        self._memo[key] = out
+        return out
+
+    def _propagate(self, m, f: ast.AST, node: ast.AST, exc: _Exc, depth: int) -> List[Tuple[str, _Exc, str, int]]:
+        self._check_fn(f)
+        out: List[Tuple[str, _Exc, str, int]] = []
+        live: List[_Exc] = [exc]
+        child = node
+        for a in ancestors(node):
+            if a is f or not live:
+                break
+            if isinstance(a, FuncNode + (ast.ClassDef,)):
+                raise AnalysisError(f"{getattr(f, 'name', '?')}: a source read sits in a nested definition that is not called by name (line {getattr(node, 'lineno', 0)})")
+            if hasattr(ast, "TryStar") and isinstance(a, ast.TryStar):
+                raise AnalysisError(f"{getattr(f, 'name', '?')}: `except*` around a source read is not modelled")
+            if isinstance(a, (ast.With, ast.AsyncWith)) and any(child is st for st in a.body):
+                for it in a.items:
+                    ce = it.context_expr
+                    if isinstance(ce, ast.Call) and call_attr(ce) == "suppress":
+                        for t in [x for arg in ce.args for x in self.handler_types(m, f, arg)]:
+                            nxt = []
+                            for e in live:
+                                k = self._match(e, t)
+                                if k:
+                                    out.append(("swallow", e if k == "full" else t, f"`with {_u(ce)}` in {f.name} suppresses it", a.lineno))  # type: ignore[attr-defined]
+                                if k != "full":
+                                    nxt.append(e)
+                            live = nxt
+            if isinstance(a, ast.Try) and any(child is st for st in a.body):
+                for h in a.handlers:
+                    types = self.handler_types(m, f, h.type)
+                    nxt = []
+                    for e in live:
+                        kinds = [(self._match(e, t), t) for t in types]
+                        full = any(k == "full" for k, _t in kinds)
+                        caught = [e] if full else [t for k, t in kinds if k == "part"]
+                        for ce_ in caught:
+                            falls, events = self._flow(m, f, h.body, ce_, h)
+                            if falls:
+                                out.append(("swallow", ce_, f"`{norm(h)}` in {f.name} ends without raising", h.lineno))  # type: ignore[attr-defined]
+                            for kind, ev in events:
+                                if kind == "raise":
+                                    em, ef, en, ee = ev  # type: ignore[misc]
+                                    out.extend(self.propagate(em, ef, en, ee, depth + 1))
+                                else:
+                                    st, how = ev  # type: ignore[misc]
+                                    out.append(("swallow", ce_, f"`{norm(h)}` in {f.name} {how} (`{norm(st)[:50]}`)", st.lineno))  # type: ignore[attr-defined]
+                        if not full:
+                            nxt.append(e)
+                    live = nxt
+                if live and a.finalbody:
+                    for st in a.finalbody:
+                        for x in walk_no_nested(st):
+                            if isinstance(x, (ast.Return, ast.Break, ast.Continue)):
+                                for e in live:
+                                    out.append(("swallow", e, f"`finally: {norm(x)[:40]}` in {f.name} discards it", x.lineno))  # type: ignore[attr-defined]
+                                live = []
+                                break
+                        if not live:
+                            break
+            child = a
+        for e in live:
+            out.extend(self._leave(m, f, e, depth))
+        return out
+
+    def _leave(self, m, f: ast.AST, exc: _Exc, depth: int) -> List[Tuple[str, _Exc, str, int]]:
+        name = getattr(f, "name", "?")
+
+        def via(ends: List[Tuple[str, _Exc, str, int]]) -> List[Tuple[str, _Exc, str, int]]:
+            return [(k, e, f"{name} <- {w}" if k == "escape" and e.key == exc.key else w, ln) for k, e, w, ln in ends]
+
+        if f is self.root:
+            return [("escape", exc, name, getattr(f, "lineno", 0))]
+        sites = self.callers.get(id(f), [])
+        if not sites:
+            raise AnalysisError(f"{name}: reads a run-space source but no call site of it was found in the call graph of {ERS}")
+        out: List[Tuple[str, _Exc, str, int]] = []
+        if self.is_generator(f):
+            # the body runs while the result is consumed: the failure surfaces where the generator is used
+            points = [s for s in self.sites if s.kind == "use" and any(id(c) in s.origins for _m, _f, c in sites)]
+            for s in points:
+                out.extend(via(self.propagate(s.mod, s.fn, s.node, exc, depth + 1)))
+            return out
+        for cm, cf, c in sites:
+            out.extend(via(self.propagate(cm, cf, c, exc, depth + 1)))
+        return out
+
+    # ---- a second read of a file that was read before -------------------------------------------
+    def reads_params(self) -> Dict[int, Set[str]]:
+        memo: Dict[int, Set[str]] = {fid: set() for fid in self.funcs}
+        for _round in range(8):
+            changed = False
+            for fid, (m, f) in self.funcs.items():
+                params = {a.arg for a in f.args.posonlyargs + f.args.args + f.args.kwonlyargs}  # type: ignore[attr-defined]
+                got = set()
+                for s in self._local_sites(m, f):
+                    if s.kind in ("open", "read") and isinstance(s.path, ast.Name) and s.path.id in params:
+                        got.add(s.path.id)
+                for n in _walk_fn(f):
+                    if isinstance(n, ast.Call) and id(n) in self.targets:
+                        for _tm, tn in self.targets[id(n)]:
+                            for pname, arg in _bind_args(n, tn).items():
+                                if pname in memo[id(tn)] and isinstance(arg, ast.Name) and arg.id in params:
+                                    got.add(arg.id)
+                if not got <= memo[fid]:
+                    memo[fid] |= got
+                    changed = True
+            if not changed:
+                break
+        return memo
+
+    def cfg(self, f: ast.AST) -> CFG:
+        g = self._cfgs.get(id(f))
+        if g is None:
+            g = self._cfgs[id(f)] = CFG(f)
+        return g
+
+    def read_before(self, m, f: ast.AST, node: ast.AST, path: Optional[ast.AST], depth: int = 0) -> bool:
+        """On every path to *node* the file named by *path* (a local name) has been opened / read completely
+        by an earlier statement that finished normally, and the name was not rebound in between."""
+        if not isinstance(path, ast.Name) or depth > 4:
+            return False
+        reads = self._reads
+        g = self.cfg(f)
+        here = stmt_of(node)
+        here_ids = g.nodes_for(here)
+        if not here_ids:
+            return False
+        # a statement that only calls a helper which never completes normally (it raises) ends its path
+        dead = set()
+        for n in g.nodes:
+            if n.kind == "stmt" and isinstance(n.ast, ast.Expr) and isinstance(n.ast.value, ast.Call) and self._never_returns(m, f, n.ast.value, _Exc.builtin("Exception"), 0) is not None:
+                dead |= {(n.id, lab) for _t, lab in g.succ[n.id] if lab not in ("EXC", "BASE")}
+        prior: List[ast.AST] = []
+        for s in self._local_sites(m, f):
+            if s.kind in ("open", "read") and isinstance(s.path, ast.Name) and s.path.id == path.id and s.node is not node:
+                prior.append(s.node)
+        for n in _walk_fn(f):
+            if isinstance(n, ast.Call) and id(n) in self.targets:
+                for _tm, tn in self.targets[id(n)]:
+                    for pname, arg in _bind_args(n, tn).items():
+                        if pname in reads[id(tn)] and isinstance(arg, ast.Name) and arg.id == path.id and n is not node:
+                            prior.append(n)
+        for p in prior:
+            st = stmt_of(p)
+            if st is here:
+                continue
+            for sid in g.nodes_for(st):
+                normal = {(sid, lab) for _t, lab in g.succ[sid] if lab not in ("EXC", "BASE")} | dead
+                seen = g.reach([g.entry], blocked_edges=normal)
+                if all(h not in seen for h in here_ids):
+                    d1 = {d.id for d in reaching_defs(g, path.id, sid)}
+                    d2 = {d.id for h in here_ids for d in reaching_defs(g, path.id, h)}
+                    if d1 == d2:
+                        return True
+        params = {a.arg for a in f.args.posonlyargs + f.args.args + f.args.kwonlyargs}  # type: ignore[attr-defined]
+        if path.id in params and f is not self.root and not any(isinstance(x, ast.Name) and isinstance(x.ctx, ast.Store) and x.id == path.id for x in _walk_fn(f)):
+            sites = self.callers.get(id(f), [])
+            return bool(sites) and all(self.read_before(cm, cf, c, _bind_args(c, f).get(path.id), depth + 1) for cm, cf, c in sites)
+        return False
+
+    # ---- verdicts -----------------------------------------------------------------------------
+    def judge(self, R: Report, rule: str) -> None:
+        from ..engine import qualname_of
+
+        self._reads = self.reads_params()
+        gate_txt = ", ".join(sorted({g.label for g in self.gate if ":" in g.key or not self.library_view})) or "nothing"
+        exempt_origins: Set[int] = set()
+        for s in self.sites:
+            if s.kind == "open" and self.read_before(s.mod, s.fn, s.node, s.path):
+                exempt_origins |= s.origins
+        done: Set[Tuple[int, int, str, str]] = set()
+        for s in sorted(self.sites, key=lambda s: (s.mod.rel, getattr(s.node, "lineno", 0), getattr(s.node, "col_offset", 0))):
+            st = stmt_of(s.node)
+            shown = norm(s.node if isinstance(s.node, ast.Call) else st)[:70]
+            for k in s.classes:
+                dk = (id(s.fn), id(st), k, shown)
+                if dk in done:
+                    continue
+                done.add(dk)
+                label = f"{k} while reading: `{shown}`"
+                fq = qualname_of(s.fn)
+                line = getattr(s.node, "lineno", 0)
+                if k == IO_FAIL and s.origins and s.origins <= exempt_origins:
+                    R.ok(rule, s.mod.rel, fq, label, "a second read of a file that an earlier statement has read completely on every path to this one (it can only fail if the file changes between the two reads)", line)
+                    continue
+                ends = self.propagate(s.mod, s.fn, s.node, _Exc.builtin(k))
+                bad = [e for e in ends if e[0] == "swallow" or not self.mapped(e[1])]
+                if not bad:
+                    R.ok(rule, s.mod.rel, fq, label, "", line)
+                    continue
+                kind, e, where, bl = bad[0]
+                if kind == "swallow":
+                    what = f"a source file that {_FAIL_TEXT[k]} raises {k} here, and {where} (line {bl}): the source is lost silently - the run space is expanded without it instead of being rejected with the configuration error"
+                elif e.key in self.cap_keys:
+                    what = f"a source file that {_FAIL_TEXT[k]} raises {k} here, which is turned into the max-runs error {e.label}: that class reports an expansion beyond max_runs, not an unreadable source"
+                else:
+                    via = f"it leaves {ERS} as {e.label}" + (f" (raised at line {bl})" if e.key != k else f" unconverted ({where})")
+                    what = f"a source file that {_FAIL_TEXT[k]} raises {k} here and {via}; the `except` clauses around the expand_run_space call in the CLI map only {gate_txt} to the configuration-error exit, so `semantiva run` ends in a traceback (exit 1) instead of the documented configuration-error code"
+                R.violation(rule, s.mod.rel, fq, label, what, line)
+
+
+def read_errors_rule(repo: Repo, R: Report, library_view: bool = True) -> None:
+    """C08-D4-read-errors-converted (re-applied by C17 as C17-D2/..., there with the CLI view of the gate)."""
+    rule = R.rule(
+        "C08-D4-read-errors-converted",
+        "every operation in the call graph of expand_run_space that reads a source file (open, read_text / read_bytes, every use of the open file or of a reader over it) lies - in its own function or around every call site - inside a `try` whose handlers turn both the I/O failure class (OSError) and the decoding failure class (UnicodeDecodeError) into a class that the `except` clauses around the CLI's expand_run_space call map to the configuration-error exit; no handler on the way ends without raising",
+        4,
+    )
+    _ReadErrors(repo, library_view).judge(R, rule)
+
+
 def run(repo: Repo, R: Report) -> None:
     mod = repo.module(RS)
     opts = dict(keep=KEEP, copyprop="all", loops=True)
-    fn = nfunc(repo, RS, ERS, **opts)
-    ee = nfunc(repo, RS, EE, **opts)
-    ls = nfunc(repo, RS, LPS, **opts)
+    fn = canon_dicts(nfunc(repo, RS, ERS, **opts))
+    ee = canon_dicts(nfunc(repo, RS, EE, **opts))
+    ls = canon_dicts(nfunc(repo, RS, LPS, **opts))
     F, FE, FL = Flow(fn), Flow(ee), Flow(ls)
     spec = fn.args.args[0].arg
     ee_params = [a.arg for a in ee.args.args]
@@ -1120,11 +2052,64 @@ def run(repo: Repo, R: Report) -> None:
     if len(top) == 1 and isinstance(top[0].args[0].value, ast.Name):
         ALL = top[0].args[0].value.id
     R.check(ALL is not None, r_ord, RS, ERS, "itertools.product(*all_block_runs)", "top-level combination is not the product of the block run lists in declaration order", top[0].lineno if top else fn.lineno)
+
+    # The list of per-block run lists is an *object*, not a name: the phases of the function may know it under
+    # different locals (handed over as `a, b = (x, y)` once the phases are split into helpers, or simply aliased).
+    # A local stands for the object created by the statements its reaching definitions lead back to through plain
+    # copies of another local; in-place growth (`x += [..]`) keeps the object.
+    _origin_memo: Dict[Tuple[str, int], FrozenSet[int]] = {}
+
+    def origins(name: str, at: ast.AST, visited: Optional[Set[int]] = None) -> FrozenSet[int]:
+        """ids of the statements creating the object the local *name* stands for in statement *at*."""
+        try:
+            key = (name, F.nid(at))
+        except AnalysisError:
+            return frozenset()
+        if visited is None and key in _origin_memo:
+            return _origin_memo[key]
+        seen_defs = visited if visited is not None else set()
+        out: Set[int] = set()
+        for d in F.defs(name, at):
+            st = d[-1]
+            if id(st) in seen_defs:
+                continue
+            seen_defs.add(id(st))
+            src: Optional[Tuple[str, ast.AST]] = None
+            if d[0] == "val" and isinstance(d[1], ast.Name):
+                src = (d[1].id, st)
+            elif d[0] == "item":
+                vs = F.values(d[1], st)
+                if len(vs) == 1 and isinstance(vs[0][0], (ast.Tuple, ast.List)) and len(vs[0][0].elts) > d[2] and not any(isinstance(x, ast.Starred) for x in vs[0][0].elts) and isinstance(vs[0][0].elts[d[2]], ast.Name):
+                    src = (vs[0][0].elts[d[2]].id, vs[0][1])
+            elif d[0] == "aug" and isinstance(st.target, ast.Name) and isinstance(st.op, ast.Add):
+                src = (name, st)  # grown in place: still the object that reached the statement
+            if src is not None:
+                out |= origins(src[0], src[1], seen_defs)
+            else:
+                out.add(id(st))
+        res = frozenset(out)
+        if visited is None:
+            _origin_memo[key] = res
+        return res
+
+    ALL_OBJ = origins(ALL, top[0]) if ALL is not None else frozenset()
+
+    def is_all(x: Optional[ast.AST], at: Optional[ast.AST] = None) -> bool:
+        """*x* is a local that stands for the list of per-block run lists where it is used."""
+        if not isinstance(x, ast.Name) or not ALL_OBJ:
+            return False
+        return origins(x.id, at if at is not None else stmt_of(x)) == ALL_OBJ
+
+    def reads_all(e: ast.AST) -> bool:
+        return any(is_all(x) for x in ast.walk(e) if isinstance(x, ast.Name) and isinstance(x.ctx, ast.Load))
+
     apps: List[Tuple[ast.AST, ast.AST]] = []  # (site, appended expression)
     for n in ast.walk(fn):
-        if isinstance(n, ast.Call) and call_attr(n) == "append" and isinstance(n.func, ast.Attribute) and dotted_name(n.func.value) == ALL and len(n.args) == 1:
+        if isinstance(n, ast.Call) and call_attr(n) == "append" and isinstance(n.func, ast.Attribute) and is_all(n.func.value) and len(n.args) == 1:
             apps.append((n, n.args[0]))
-        if isinstance(n, ast.AugAssign) and isinstance(n.op, ast.Add) and dotted_name(n.target) == ALL and isinstance(n.value, ast.List) and len(n.value.elts) == 1:
+        if isinstance(n, ast.Call) and call_attr(n) == "extend" and isinstance(n.func, ast.Attribute) and is_all(n.func.value) and len(n.args) == 1 and isinstance(n.args[0], (ast.List, ast.Tuple)) and len(n.args[0].elts) == 1 and not isinstance(n.args[0].elts[0], ast.Starred):
+            apps.append((n, n.args[0].elts[0]))
+        if isinstance(n, ast.AugAssign) and isinstance(n.op, ast.Add) and is_all(n.target, n) and isinstance(n.value, (ast.List, ast.Tuple)) and len(n.value.elts) == 1 and not isinstance(n.value.elts[0], ast.Starred):
             apps.append((n, n.value.elts[0]))
 
     def block_loop_of(node: ast.AST) -> Optional[ast.For]:
@@ -1167,6 +2152,7 @@ def run(repo: Repo, R: Report) -> None:
     if not block:
         raise AnalysisError("expand_run_space: block loop variable not recognised")
     in_bl = {id(x) for x in ast.walk(bl)}
+    fn_nodes = {id(x) for x in ast.walk(fn)}
 
     # ---- provenance of a mapping inside the block loop: derived from block.context ('ctx'), from the
     # ---- columns returned by _load_and_process_source ('src'), or anything else ('other')
@@ -1201,8 +2187,16 @@ def run(repo: Repo, R: Report) -> None:
             return frozenset({"other"})
         if isinstance(e, ast.BinOp) and isinstance(e.op, ast.BitOr):
             return prov(e.left, at, depth + 1) | prov(e.right, at, depth + 1)
-        if isinstance(e, ast.Call) and isinstance(e.func, ast.Attribute) and e.func.attr == "union" and len(e.args) == 1:
-            return prov(e.func.value, at, depth + 1) | prov(e.args[0], at, depth + 1)
+        if isinstance(e, ast.Call) and isinstance(e.func, ast.Attribute) and e.func.attr == "union" and e.args and not e.keywords and not any(isinstance(a, ast.Starred) for a in e.args):
+            out = prov(e.func.value, at, depth + 1)
+            for a in e.args:
+                out |= prov(a, at, depth + 1)
+            return out
+        if isinstance(e, (ast.Set, ast.List, ast.Tuple)) and e.elts and all(isinstance(x, ast.Starred) for x in e.elts):
+            out = frozenset()  # {*a, *b}: the keys of a and of b
+            for x in e.elts:
+                out |= prov(x.value, at, depth + 1)
+            return out
         if isinstance(e, ast.IfExp):
             return prov(e.body, at, depth + 1) | prov(e.orelse, at, depth + 1)
         if isinstance(e, ast.Dict) and e.keys and all(k is None for k in e.keys):
@@ -1341,10 +2335,11 @@ def run(repo: Repo, R: Report) -> None:
         if id(cons) in in_bl:
             continue
         if match("range(_T_)", it) and isinstance(tgt, ast.Name):
-            inner = [1 for c2, it2, t2, b2 in iterations(cons) if dotted_name(it2) == ALL and isinstance(t2, ast.Name) and (found(b2, f"{t2.id}[{tgt.id}]") or (c2 is cons and found(body, f"{t2.id}[{tgt.id}]")))]
-            if inner or found(body, f"_r_[{tgt.id}]") and ALL in {n for b in body for n in names_in(b)}:
+            inner = [1 for c2, it2, t2, b2 in iterations(cons) if is_all(it2) and isinstance(t2, ast.Name) and (found(b2, f"{t2.id}[{tgt.id}]") or (c2 is cons and found(body, f"{t2.id}[{tgt.id}]")))]
+            if inner or found(body, f"_r_[{tgt.id}]") and any(reads_all(b) for b in body):
                 ok = True
-        if ALL and match(f"zip(*{ALL})", it):
+        mz = match("zip(*_A_)", it)
+        if mz and is_all(mz["_A_"]):
             ok = True
     R.check(ok, r_ord, RS, ERS, "combine=by_position: merge runs[idx] of every block for idx in range(total)", "combine=by_position does not merge aligned positions of all blocks", fn.lineno)
 
@@ -1401,10 +2396,11 @@ def run(repo: Repo, R: Report) -> None:
                     c = lens_collections(flow, m["_X_"], at)
                     if c and accept(c, at):
                         return pol
-            if isinstance(e, ast.Name):
-                c = lens_collections(flow, e, at)
+            subject, pol = emptiness_test(e, flow, at) or (e, False)
+            if isinstance(subject, ast.Name):
+                c = lens_collections(flow, subject, at)
                 if c and accept(c, at):
-                    return False  # no lengths at all => nothing differs
+                    return pol  # no lengths at all => nothing differs
             return None
         return atom
 
@@ -1431,7 +2427,7 @@ def run(repo: Repo, R: Report) -> None:
         return True
 
     at_blk = equal_atom(F, lambda cols, at: id(at) in in_bl and reads_runs(cols, at))
-    at_all = equal_atom(F, lambda cols, at: id(at) not in in_bl and all(ALL in names_in(c) for c in cols))
+    at_all = equal_atom(F, lambda cols, at: id(at) not in in_bl and all(reads_all(c) for c in cols))
     g_blk = [(n, e) for n, e in F.rejecting(at_blk)]
     g_all = [(n, e) for n, e in F.rejecting(at_all)]
     R.check(bool(g_blk), r_g, RS, ERS, "block: context vs source run counts must match", "the context-vs-source size guard of a by_position block is missing or no longer raises", fn.lineno)
@@ -1462,10 +2458,7 @@ def run(repo: Repo, R: Report) -> None:
             at = stmt_of(e)
             if isinstance(e, ast.Call) and isinstance(e.func, ast.Attribute) and e.func.attr == "isdisjoint" and len(e.args) == 1:
                 return True if accept(e.func.value, e.args[0], at) else None
-            cc = count_cmp(e)
-            subject, pol = (cc[0], cc[1] == "none") if cc and cc[1] in ("some", "none") else (e, False)
-            if subject is e and isinstance(e, ast.Call) and isinstance(e.func, ast.Name) and e.func.id == "bool" and len(e.args) == 1:
-                subject = e.args[0]
+            subject, pol = emptiness_test(e, F, at) or (e, False)
             if not isinstance(subject, (ast.Name, ast.Call, ast.BinOp, ast.ListComp, ast.SetComp)):
                 return None
             ops = overlap_operands(F, subject, at)
@@ -1489,6 +2482,13 @@ def run(repo: Repo, R: Report) -> None:
                 grow.append((n, n.args[0]))
             if isinstance(n, ast.AugAssign) and isinstance(n.op, ast.BitOr) and dotted_name(n.target) == e.id:
                 grow.append((n, n.value))
+            if isinstance(n, ast.For) and n is not bl and isinstance(n.target, ast.Name) and not n.orelse:
+                # for k in X: seen.add(k)  ==  seen.update(X), when every element reaches the add
+                adds = [st for st in n.body if isinstance(st, ast.Expr) and isinstance(st.value, ast.Call) and isinstance(st.value.func, ast.Attribute) and st.value.func.attr == "add" and dotted_name(st.value.func.value) == e.id and len(st.value.args) == 1 and _u(st.value.args[0]) == n.target.id]
+                early = any(isinstance(x, (ast.Continue, ast.Break, ast.Return)) for st in n.body[: n.body.index(adds[0])] for x in ast.walk(st)) if adds else True
+                rebound = any(isinstance(x, ast.Name) and x.id == n.target.id and isinstance(x.ctx, ast.Store) for st in n.body for x in ast.walk(st))
+                if adds and not early and not rebound:
+                    grow.append((n, n.iter))
         inside = [n for n in plain if id(n) in in_bl]
         for n in inside:
             m = match(f"{e.id} = {e.id} | _X_", n) or match(f"{e.id} = {e.id}.union(_X_)", n)
@@ -1514,13 +2514,13 @@ def run(repo: Repo, R: Report) -> None:
 
     # rename collision: every store into the renamed mapping is preceded by `target not in renamed`
     src_p = ls_params[0]
-    rename_stores: List[Tuple[ast.For, ast.Assign, str, ast.AST]] = []  # (loop, store, mapping name, key expr)
+    rename_stores: List[Tuple[ast.For, ast.stmt, str, ast.AST]] = []  # (loop, store, mapping name, key expr)
     for lp in [n for n in walk_no_nested(ls) if isinstance(n, ast.For)]:
-        stores = [n for n in ast.walk(lp) if isinstance(n, ast.Assign) and len(n.targets) == 1 and isinstance(n.targets[0], ast.Subscript) and isinstance(n.targets[0].value, ast.Name)]
-        renamed_maps = {s.targets[0].value.id for s in stores if any(f"{src_p}.rename" in _u(v) for v, _st in FL.values(s.targets[0].slice, s))}
-        for s in stores:
-            if s.targets[0].value.id in renamed_maps:
-                rename_stores.append((lp, s, s.targets[0].value.id, s.targets[0].slice))
+        stores = list(keyed_stores(lp))  # however the store is spelled (item store, update, spread, ...)
+        renamed_maps = {m for s, m, k in stores if any(f"{src_p}.rename" in _u(v) for v, _st in FL.values(k, s))}
+        for s, m, k in stores:
+            if m in renamed_maps:
+                rename_stores.append((lp, s, m, k))
 
     def free_atom(mapping: str, key: ast.AST, at_store: ast.AST):
         keys = {_u(key)} | {_u(v) for v, _s in FL.values(key, at_store)}
@@ -1644,8 +2644,7 @@ def run(repo: Repo, R: Report) -> None:
                 if r is not None:
                     return r
         # truthiness / size of the collection of missing keys
-        cc = count_cmp(e)
-        subject, pol = (cc[0], cc[1] == "none") if cc and cc[1] in ("some", "none") else (e, False)
+        subject, pol = emptiness_test(e, FL, at) or (e, False)
         if isinstance(subject, (ast.Name, ast.BinOp, ast.ListComp, ast.SetComp)) or (isinstance(subject, ast.Call) and isinstance(subject.func, (ast.Name, ast.Attribute)) and call_attr(subject) in ("list", "set", "sorted", "tuple", "difference")):
             if missing_collection(subject, at):
                 return pol
@@ -1679,9 +2678,9 @@ def run(repo: Repo, R: Report) -> None:
         """Atom "the <side> entries mapping is empty"."""
         def atom(e: ast.AST) -> Optional[bool]:
             at = stmt_of(e)
-            cc = count_cmp(e)
-            if cc and cc[1] in ("some", "none"):
-                return (cc[1] == "none") if prov(cc[0], at) == side else None
+            et = emptiness_test(e, F, at)
+            if et is not None:
+                return et[1] if prov(et[0], at) == side else None
             if isinstance(e, ast.Name) and prov(e, at) == side:
                 return False
             return None
@@ -1743,11 +2742,23 @@ def run(repo: Repo, R: Report) -> None:
     g = F.g
     materialised = {dotted_name(r.value.elts[0]) for r in walk_no_nested(fn) if isinstance(r, ast.Return) and isinstance(r.value, ast.Tuple) and r.value.elts} | {BR}
     cap_expr = f"{spec}.max_runs"
+    # ... as objects: the phases of a split function know the result list / a block's run list under other locals
+    MAT_OBJ: Set[int] = set()
+    for r in walk_no_nested(fn):
+        if isinstance(r, ast.Return) and isinstance(r.value, ast.Tuple) and r.value.elts and isinstance(r.value.elts[0], ast.Name):
+            MAT_OBJ |= origins(r.value.elts[0].id, r)
+    if apps and isinstance(apps[0][1], ast.Name):
+        MAT_OBJ |= origins(apps[0][1].id, apps[0][0])
+
+    def is_materialised(x: ast.AST) -> bool:
+        if dotted_name(x) in materialised:
+            return True
+        return isinstance(x, ast.Name) and id(x) in fn_nodes and bool(origins(x.id, stmt_of(x)) & MAT_OBJ)
 
     def size_ok(f: ast.AST, left: ast.AST) -> bool:
         vals = assigned_value(f, left.id) if isinstance(left, ast.Name) else []
         for v in (vals or [left]):
-            if any(isinstance(c, ast.Call) and call_attr(c) == "len" and c.args and dotted_name(c.args[0]) in materialised for c in ast.walk(v)):
+            if any(isinstance(c, ast.Call) and call_attr(c) == "len" and c.args and is_materialised(c.args[0]) for c in ast.walk(v)):
                 return False
         return True
 
@@ -1794,6 +2805,10 @@ def run(repo: Repo, R: Report) -> None:
                 if isinstance(rc, ast.Name):
                     vs = [v for v, _s in F.values(rc, rz)]
                     rc = vs[0] if len(vs) == 1 else rc
+                if isinstance(rc, ast.Call) and any(kw.arg is None and isinstance(kw.value, ast.Name) for kw in rc.keywords):
+                    # raise E(**details): the keywords are the items of the one mapping display the local stands for
+                    rc = copy.copy(rc)
+                    rc.keywords = [ast.keyword(arg=None, value=vs[0][0]) if kw.arg is None and isinstance(kw.value, ast.Name) and len(vs := F.values(kw.value, rz)) == 1 and isinstance(vs[0][0], ast.Dict) and not mutated_in(fn, kw.value.id) else kw for kw in rc.keywords]
                 ok = ok and isinstance(rc, ast.Call) and _u(call_arg(rc, 0, "actual_runs")) == _u(size) and _u(call_arg(rc, 1, "max_runs")) == cap_expr
             R.check(ok, r_cap, RS, ERS, "max-runs error carries projected size and limit", "the max-runs error does not carry the projected size and the limit", n.line)
     # helper functions (not inlined: public name) that raise unless within cap: helper(size, spec)
@@ -1844,7 +2859,7 @@ def run(repo: Repo, R: Report) -> None:
     # the size used for the product is the product of all block sizes
     ok = False
     for cons, it, tgt, body in iterations(fn):
-        if dotted_name(it) == ALL and isinstance(tgt, ast.Name) and id(cons) not in in_bl:
+        if is_all(it) and isinstance(tgt, ast.Name) and id(cons) not in in_bl:
             for b in body:
                 for n in ast.walk(b):
                     if isinstance(n, ast.AugAssign) and isinstance(n.op, ast.Mult) and match(f"len({tgt.id})", n.value):
@@ -1852,9 +2867,9 @@ def run(repo: Repo, R: Report) -> None:
                     if isinstance(n, ast.Assign) and len(n.targets) == 1 and isinstance(n.targets[0], ast.Name) and (match(f"{n.targets[0].id} * len({tgt.id})", n.value) or match(f"len({tgt.id}) * {n.targets[0].id}", n.value)):
                         ok = True
     for n in ast.walk(fn):
-        if isinstance(n, ast.Call) and call_name(n) in ("math.prod", "prod") and ALL in names_in(n):
+        if isinstance(n, ast.Call) and call_name(n) in ("math.prod", "prod") and reads_all(n):
             ok = True
-        if isinstance(n, ast.Call) and call_name(n) in ("functools.reduce", "reduce") and n.args and _last(dotted_name(n.args[0])) == "mul" and ALL in names_in(n):
+        if isinstance(n, ast.Call) and call_name(n) in ("functools.reduce", "reduce") and n.args and _last(dotted_name(n.args[0])) == "mul" and reads_all(n):
             ok = True
     R.check(ok or n_cap == 0, r_cap, RS, ERS, "projected size = product of len(runs) over all blocks", "the projected size is not the product of all block sizes", fn.lineno)
 
@@ -2065,10 +3080,20 @@ def run(repo: Repo, R: Report) -> None:
     _source_columns(repo, R)
     _cell_converters(repo, R)
     _declared_defaults(repo, R)
+    read_errors_rule(repo, R)
 
     # ------------------------------------------------------------------ D4 error classes
     r_err = R.rule("C08-D4-error-classes", "expansion raises only the documented configuration error and max-runs error", 5)
     allowed = set(CONFIG_ERRORS) | {CAP_ERROR}
+    def raised_classes(f: ast.AST, r: ast.Raise) -> Set[Optional[str]]:
+        """Class names `raise X` / `raise X(..)` / `err = X(..); raise err` can raise."""
+        t = r.exc.func if isinstance(r.exc, ast.Call) else r.exc
+        if isinstance(t, ast.Name) and not isinstance(r.exc, ast.Call):
+            vals = assigned_value(f, t.id)
+            if vals and all(isinstance(v, ast.Call) for v in vals):
+                return {_last(dotted_name(v.func)) for v in vals}
+        return {_last(dotted_name(t))}
+
     for f in [n for q, n in mod.defs.items() if isinstance(n, FuncNode) and "." not in q and n.name != "_coerce_scalar"]:
         for n in walk_no_nested(f):
             if isinstance(n, ast.Raise) and n.exc is not None:
@@ -2101,7 +3126,7 @@ def run(repo: Repo, R: Report) -> None:
                 if isinstance(a, ast.Try) and any(child is st or any(child is x for x in ast.walk(st)) for st in a.body):
                     for h in a.handlers:
                         caught = {_last(dotted_name(t)) for t in (h.type.elts if isinstance(h.type, ast.Tuple) else [h.type])} if h.type is not None else {"Exception"}
-                        if caught & PARSERS[cn] and any(isinstance(r, ast.Raise) and r.exc is not None and _last(dotted_name(r.exc.func if isinstance(r.exc, ast.Call) else r.exc)) in CONFIG_ERRORS for r in ast.walk(h)):
+                        if caught & PARSERS[cn] and any(isinstance(r, ast.Raise) and r.exc is not None and raised_classes(f, r) and raised_classes(f, r) <= set(CONFIG_ERRORS) for r in ast.walk(h)):
                             converted = True
                 child = a
             R.check(converted, r_err, RS, f.name, f"{cn}(...) failure -> configuration error", f"a malformed source file makes `{cn}` raise its own error class, which is not converted into the configuration error here (its sibling parsers are): expansion fails with an undocumented exception and the CLI ends with a traceback and exit 1 instead of the configuration-error exit", c.lineno)
@@ -2130,7 +3155,11 @@ def run(repo: Repo, R: Report) -> None:
                 return isinstance(op, (ast.Is, ast.IsNot, ast.Eq, ast.NotEq)) and isinstance(b, ast.Constant) and b.value is None and dotted_name(a) in keys
 
             none_tests = [t for t in ast.walk(f) if about_surplus(t)]
-            rejecting = [t for t in none_tests if any(isinstance(a, ast.If) and any(x is t for x in ast.walk(a.test)) and any(isinstance(r, ast.Raise) for st in a.body + a.orelse for r in ast.walk(st)) for a in ancestors(t))]
+            # a test may be named first (`surplus = None in row` ... `if surplus:`): the branch on the flag is the test
+            flags = {tg.id for a in ast.walk(f) if isinstance(a, (ast.Assign, ast.AnnAssign)) and a.value is not None and any(x is t for t in none_tests for x in ast.walk(a.value)) for tg in (a.targets if isinstance(a, ast.Assign) else [a.target]) if isinstance(tg, ast.Name)}
+            branches = [a for a in ast.walk(f) if isinstance(a, ast.If) and any(isinstance(r, ast.Raise) for st in a.body + a.orelse for r in ast.walk(st))]
+            rejecting = [t for t in none_tests if any(any(x is t for x in ast.walk(a.test)) for a in branches)]
+            rejecting += [a for a in branches if flags & names_in(a.test)]
             R.check(has_restkey or bool(rejecting), r_err, RS, f.name, "csv row with more cells than the header is rejected", "csv.DictReader stores surplus cells under the key None and nothing tests for it: a row longer than the header ends in KeyError(None) (or a column named None) instead of the configuration error", rd.lineno)
     # the cap value itself comes from the configuration unchanged
     YL = "semantiva/configurations/load_pipeline_from_yaml.py"
